@@ -87,4 +87,44 @@ def l1Loop (nkeys : Nat) : Insts → Nat → List Event → Option Diff
 def l1 (cfg : Cfg) (nkeys : Nat) (evs : List Event) : Option Diff :=
   l1Loop nkeys ⟨MState.init cfg, MState.init cfg⟩ 0 evs
 
+/-- coverage figures of one script, measured on the implementation's events -/
+structure Stat where
+  events : Nat := 0
+  evictions : Nat := 0   -- accepted single inserts after which a previously swept key is gone
+  hits : Nat := 0
+  misses : Nat := 0
+  rejected : Nat := 0    -- inserts that returned false
+  reaped : Nat := 0      -- entries removed by clean_expired_values
+  expired : Nat := 0     -- events at which a previously swept key is gone without an insert/erase/clear (expiry)
+  rangeOps : Nat := 0
+  deriving Repr
+
+def statLoop : List Event → List Key → List Key → Stat → Stat
+  | [], _, _, st => st
+  | e :: es, prevA, prevB, st =>
+    let prev := if e.inst = 0 then prevA else prevB
+    let cur := e.obs.sweep.map (·.1)
+    let lost := prev.filter (fun k => !cur.contains k)
+    let st := { st with events := st.events + 1 }
+    let st := match e.op, e.out with
+      | .insert .., .bool true => if lost.isEmpty then st else { st with evictions := st.evictions + 1 }
+      | .insert .., .bool false => { st with rejected := st.rejected + 1 }
+      | .insertRange .., _ => { st with rangeOps := st.rangeOps + 1, evictions := st.evictions + lost.length }
+      | .find .., .opt (some _) => { st with hits := st.hits + 1 }
+      | .find .., .opt none => { st with misses := st.misses + 1 }
+      | .findCount .., .optc (some _) => { st with hits := st.hits + 1 }
+      | .findCount .., .optc none => { st with misses := st.misses + 1 }
+      | .findRange .., _ => { st with rangeOps := st.rangeOps + 1 }
+      | .eraseRange .., _ => { st with rangeOps := st.rangeOps + 1 }
+      | .clean, .nat n => { st with reaped := st.reaped + n }
+      | .erase .., _ => st
+      | .clear, _ => st
+      | _, _ => if lost.isEmpty then st else { st with expired := st.expired + 1 }
+    if e.inst = 0 then statLoop es cur prevB st else statLoop es prevA cur st
+
+def stat (evs : List Event) : Stat := statLoop evs [] [] {}
+
+def Stat.show (s : Stat) : String :=
+  s!"events={s.events} evictions={s.evictions} hits={s.hits} misses={s.misses} rejected={s.rejected} reaped={s.reaped} expired={s.expired} ranges={s.rangeOps}"
+
 end Verif.Check
